@@ -159,8 +159,12 @@ func closeExec(ex *kv.KVExecutor) error {
 
 // runInProcess drives one instance in this process: a reopen is close + NewKVExecutor on the same directory.
 func runInProcess(ctx context.Context, dir, sub string, blocks []Block, ops []Op) ([]Obs, error) {
+	return runInProcessFrom(ctx, dir, sub, blocks, ops, &Resume{})
+}
+
+// runInProcessFrom is runInProcess for an instance that already has a past (driver state rs, updated in place).
+func runInProcessFrom(ctx context.Context, dir, sub string, blocks []Block, ops []Op, rs *Resume) ([]Obs, error) {
 	var all []Obs
-	rs := &Resume{}
 	next := 0
 	for {
 		ex, err := kv.NewKVExecutor(dir, sub)
